@@ -39,7 +39,7 @@ def oracle_case(rng):
     n = int(rng.integers(1, 4))
     try:
         if k == 0:
-            psi = full_mps(rng, L, qd0)
+            psi = full_mps(rng, L, qd0, cplx=bool(rng.random() < 0.6))     # real-dtype states with complex Hamiltonians included
             v0 = dense_mps(psi); v0 = v0 / np.linalg.norm(v0)
             numiter = max(d * max(psi.bond_dims) ** 2, d * d * max(psi.bond_dims) ** 2) + 2
             if two:
@@ -52,7 +52,7 @@ def oracle_case(rng):
                 return f'{"two" if two else "single"}-site TDVP on a complete manifold (L={L}, dt={dtv}, n={n}) deviates from expm(-dt*n*H) psi by {err:.3g}'
         else:
             # reversibility for any bond profile (single-site), exact local exponentials = many Krylov iterations
-            psi = full_mps(rng, L, qd0)
+            psi = full_mps(rng, L, qd0, cplx=bool(rng.random() < 0.6))
             if L >= 2 and rng.random() < 0.7:
                 # reduce bond dimensions
                 D = [1] + [int(rng.integers(1, 3)) for _ in range(L - 1)] + [1]
